@@ -113,6 +113,28 @@ pub fn cmd_gen_secrets(args: &[String]) -> i32 {
     for b in [0x00u8, 0xff, 0x88, 0x77, 0x80, 0x01] {
         println!("{}", crate::util::hex(&[b; 64]));
     }
+    // secrets RELATED to the driver's fixed public inputs (pub_point = 0x1234567*B, pub_point2 = 0x7654321*B,
+    // pub_scalar = [0x5a;32] mod l): equal / opposite / same-x values are exactly where a short-circuit or an
+    // "early equal" path would show, and random secrets never hit them. Byte 32 picks the torsion component of
+    // the driver's second secret point.
+    {
+        use curve25519_dalek::scalar::Scalar;
+        let k = Scalar::from(0x1234567u64);
+        let k2 = Scalar::from(0x7654321u64);
+        let ps = Scalar::from_bytes_mod_order([0x5a; 32]);
+        let mk = |s: Scalar, t: u8| {
+            let mut x = [0u8; 64];
+            x[..32].copy_from_slice(&s.to_bytes());
+            x[32] = t;
+            x
+        };
+        for x in [mk(k, 0), mk(-k, 0), mk(-k, 4), mk(k, 4), mk(ps, 0), mk(-ps, 1), mk(k2, 0), mk(k - Scalar::ONE, 2)] {
+            println!("{}", crate::util::hex(&x));
+        }
+        let mut raw = [0u8; 64];
+        raw[..32].copy_from_slice(&[0x5a; 32]);
+        println!("{}", crate::util::hex(&raw));
+    }
     let mut runner = TestRunner::new(Config { rng_seed: RngSeed::Fixed(seed ^ 0xc10c10), failure_persistence: None, ..Config::default() });
     let s = prop_oneof![
         3 => crate::gens::u512_interesting(),
